@@ -353,6 +353,9 @@ class Env:
             return self._do_new(op)
         if name == "reload":
             return self._do_reload(op["ir"], op)
+        if name == "ctor.interval":
+            bi = self.g.ByteInterval(size=op["z"], contents=bytes(op["bs"]))
+            return {"size": bi.size, "bytes": list(bi.contents), "isize": bi.initialized_size}
         if name == "loadfault":
             from . import faults
             return faults.do_loadfault(self, op, self.pending_ir)
@@ -378,9 +381,11 @@ class Env:
         if m == "clear":
             return self._ret(coll.clear())
         if m == "update":
+            a = self.nodes(op["a"])
+            a = a + a[:1]          # any iterable is accepted, also one that repeats an element
             if op["n"] == 1:
-                return self._ret(coll.update(self.nodes(op["a"])))
-            return self._ret(coll.update(self.nodes(op["a"]), iter(self.nodes(op["b"]))))
+                return self._ret(coll.update(a))
+            return self._ret(coll.update(a, iter(self.nodes(op["b"]))))
         A = set(self.nodes(op["a"]))
         if m in ("ior", "iand", "isub", "ixor"):
             c2 = coll
@@ -527,7 +532,8 @@ class Env:
             return self._ret(C.clear())
         A = {self.to_edge(e) for e in op["a"]}
         if m == "update":
-            return self._ret(C.update(A))
+            L = [self.to_edge(e) for e in op["a"]]
+            return self._ret(C.update(L + L[:1]))   # an iterable that repeats an edge
         C2 = C
         if m == "ior":
             C2 |= A
@@ -663,8 +669,9 @@ class Env:
             if got != want:
                 return {"exc": "WriterDisagreesWithSchemaMapping", "msg": _first_diff(want, got)}
         new_ir = self.g.IR.load_protobuf_file(io.BytesIO(data))
-        # --- C01: deep_eq both ways, and saving the loaded IR gives the same content
-        if old_ir.deep_eq(new_ir) is not True or new_ir.deep_eq(old_ir) is not True:
+        # --- C01: deep_eq both ways (judged below, once the loaded content is known to be right)
+        deq_loaded = old_ir.deep_eq(new_ir) is True and new_ir.deep_eq(old_ir) is True
+        if want is None and not deq_loaded:
             return {"exc": "LoadedNotDeepEq"}
         bad = protomsg.check_identity(self.g, new_ir)
         if bad:
@@ -696,13 +703,15 @@ class Env:
             got2 = protomsg.canon_msg(mapper.canon_from_proto(pm2, self._expr_ids(new_ir)))
             if got2 != want:
                 return {"exc": "ResaveDiffers", "msg": _first_diff(want, got2)}
+            if not deq_loaded:
+                # the loaded IR has exactly the saved content (its own re-save equals the spec's message),
+                # yet deep_eq calls the two unequal: equal copies must be deep_eq (C18, C01)
+                return {"exc": "EqualCopiesNotDeepEq", "msg": "original vs loaded"}
             # --- reader direction: a message built from the spec's record by an independent writer
             #     (generated classes only; orders shuffled, duplicates, arbitrary vertex list, ...)
             self._rng = getattr(self, "_rng", None) or random.Random(12345)
             im = mapper.build_proto(op["msg"], self._rng, vary=True)
             ir3 = self.g.IR.load_protobuf_file(io.BytesIO(protomsg.file_bytes(im)))
-            if new_ir.deep_eq(ir3) is not True or ir3.deep_eq(new_ir) is not True:
-                return {"exc": "ReaderDisagreesWithSchemaMapping", "msg": "deep_eq with the IR loaded from gtirb's own file"}
             if [m.uuid for m in ir3.modules] != [m.uuid for m in new_ir.modules]:
                 return {"exc": "ReaderDisagreesWithSchemaMapping", "msg": "module order"}
             bad = protomsg.check_identity(self.g, ir3)
@@ -720,6 +729,8 @@ class Env:
             got3 = protomsg.canon_msg(mapper.canon_from_proto(pm3, ids3))
             if got3 != want:
                 return {"exc": "ReaderDisagreesWithSchemaMapping", "msg": _first_diff(want, got3)}
+            if new_ir.deep_eq(ir3) is not True or ir3.deep_eq(new_ir) is not True:
+                return {"exc": "EqualCopiesNotDeepEq", "msg": "loaded from gtirb's file vs loaded from an independently written file"}
             self.last_msg = (op["msg"], im)
         return NONE
 
